@@ -50,12 +50,23 @@ def check(case):
     units = []
     two_ops = False
     composite = _attached_to_composite(ast)
+    shared_tree = sut.call(api.parse_cond, text)
+    if not shared_tree.ok:
+        fail("evaluation-raises", f"valid expression {text!r} was not parsed: {shared_tree!r}")
     for assignment in assignments:
         evalhelp.setup_for(ast, assignment)
         res = sut.call(api.requirement_constraint_evaluation, text)
         if not res.ok:
             fail("evaluation-raises", f"requirement_constraint_evaluation({text!r}) under {assignment} raised {res!r}")
         fce = res.value.format_constraints_expression
+        # the same from an already parsed tree, which is re-used for all assignments (parse once, evaluate often)
+        evalhelp.setup_for(ast, assignment)
+        from_tree = sut.call(api.requirement_constraint_evaluation, shared_tree.value)
+        if not from_tree.ok:
+            fail("evaluation-raises", f"requirement_constraint_evaluation(tree of {text!r}) under {assignment} raised {from_tree!r}")
+        if from_tree.value.format_constraints_expression != fce:
+            fail("tree-route", f"{text!r} under {assignment}: the collected expression is {fce!r} for the string but "
+                 f"{from_tree.value.format_constraints_expression!r} for its (re-used) parsed tree")  # fmt: skip
         # ---- form
         if fce is not None:
             if not isinstance(fce, str) or not ref.accepts_condition(fce):
